@@ -180,13 +180,15 @@ SHIM2_C = r"""
 #include <linux/sockios.h>
 #include <linux/ethtool.h>
 /* Scripted OS answers for the C17 correspondence.  Active only while the script file exists in $C17_SHIM_DIR:
-     ifaddrs.txt   one entry per line: <name hex> <flags> <addr> <netmask> <ifu>   (each sockaddr: '-' or the hex of its bytes;
+     ifaddrs.txt   first line "FAIL <errno> <stores_null>": getifaddrs() fails (and stores NULL into *ifap first, or not); else
+                   one entry per line: <name hex> <flags> <addr> <netmask> <ifu>   (each sockaddr: '-' or the hex of its bytes;
                    every sockaddr is malloc'ed with exactly that many bytes, but never fewer than sizeof(struct sockaddr) —
                    the size every consumer, ASan's own getifaddrs interceptor included, may assume — so that a sanitizer
                    build sees any read past the object)
      ioctl.txt     "<ret> <errno> <mtu> <flags> <speed_lo> <speed_hi> <duplex>" for SIOCGIFMTU / SIOCGIFFLAGS / SIOCETHTOOL
                    (default answer), optionally followed by per-NIC / per-request lines "<name hex> <M|F|E> <same 7 numbers>";
                    the 16 raw bytes of ifr_name the call carried are appended (hex) to ioctl.out
+     socket.txt    "<errno>": socket(AF_INET, SOCK_DGRAM, …) fails with it (calls logged to socket.out)
      sysinfo.txt   seven decimal numbers: totalram freeram bufferram sharedram totalswap freeswap mem_unit            */
 static const char *dir(void) { return getenv("C17_SHIM_DIR"); }
 static FILE *script(const char *name) {
@@ -216,6 +218,17 @@ int getifaddrs(struct ifaddrs **out) {
     static int (*real)(struct ifaddrs **);
     FILE *f = script("ifaddrs.txt");
     if (!f) { if (!real) real = dlsym(RTLD_NEXT, "getifaddrs"); return real(out); }
+    {   /* round 3: a FAILING getifaddrs(): first line "FAIL <errno> <stores_null>".  getifaddrs(3) does not say what *ifap
+           holds after a failure: glibc stores NULL before anything can fail (stores_null = 1), musl leaves it untouched (0) */
+        char first[8]; int e = 0, st = 0;
+        if (fscanf(f, "%7s", first) == 1 && strcmp(first, "FAIL") == 0) {
+            if (fscanf(f, "%d %d", &e, &st) != 2) { e = ENOMEM; st = 1; }
+            fclose(f);
+            if (st) *out = NULL;
+            errno = e; return -1;
+        }
+        rewind(f);
+    }
     struct ifaddrs *head = NULL, **tail = &head;
     static char name[4096], a[70000], m[70000], u[70000]; unsigned flags;
     while (fscanf(f, "%4095s %u %69999s %69999s %69999s", name, &flags, a, m, u) == 5) {
@@ -233,6 +246,24 @@ void freeifaddrs(struct ifaddrs *p) {
     if (p && p == ours) { free_ours(p); ours = NULL; return; }
     if (!real) real = dlsym(RTLD_NEXT, "freeifaddrs");
     real(p);
+}
+/* round 3: a FAILING socket(AF_INET, SOCK_DGRAM, 0) — what the four ifreq entry points open — while socket.txt ("<errno>") exists;
+   every call is logged to socket.out so that the harness sees the entry point did ask */
+int socket(int domain, int type, int protocol) {
+    static int (*real)(int, int, int);
+    if (domain == AF_INET && (type & 0xf) == SOCK_DGRAM) {
+        FILE *f = script("socket.txt");
+        if (f) {
+            int e = 0; int got = fscanf(f, "%d", &e); fclose(f);
+            if (got == 1) {
+                char p[4096]; FILE *o; snprintf(p, sizeof p, "%s/socket.out", dir());
+                o = fopen(p, "a"); if (o) { fprintf(o, "%d %d %d\n", domain, type, protocol); fclose(o); }
+                errno = e; return -1;
+            }
+        }
+    }
+    if (!real) real = dlsym(RTLD_NEXT, "socket");
+    return real(domain, type, protocol);
 }
 int ioctl(int fd, unsigned long req, ...) {
     static int (*real)(int, unsigned long, void *);
